@@ -47,7 +47,7 @@ Proof.
   - intros [= -> ->]. rewrite Ascii.eqb_refl. apply IH. reflexivity.
 Qed.
 
-Definition mkpat (ng dir : bool) (ss : list seg) : apat := {| p_neg := ng; p_dir := dir; p_segs := ss |}.
+Definition mkpat (ng dir : bool) (ss : list seg) : apat := {| p_neg := ng; p_dir := dir; p_tail := false; p_segs := ss |}.
 
 Lemma parse_body_anchored g ng n : n <> [] -> forallb class_plain n = true ->
   parse_body g ng ("/" :: n) = PPat (mkpat ng false [SGlob (map GLit n)]).
@@ -165,7 +165,7 @@ Proof.
   destruct (text_patterns g n Hne H) as (T1 & T2 & T3 & _).
   rewrite T1 in E1. rewrite T2 in E2. rewrite T3 in E3.
   injection E1 as <-. injection E2 as <-. injection E3 as <-.
-  unfold pat_hits, mkpat. cbn [p_dir p_segs implb andb].
+  unfold pat_hits, pat_segs, mkpat. cbn [p_dir p_tail p_segs implb andb].
   split; [|split].
   - rewrite anchored_only_at_root. split.
     + intros (c & -> & Hg). apply gmatch_lits in Hg. subst. reflexivity.
